@@ -417,6 +417,16 @@ Fixpoint has_dup (l : list derive_trait) : bool :=
   | x :: r => existsb (derive_trait_eqb x) r || has_dup r
   end.
 
+(* a trait requested again, under the same bounds, by a later (non-adjacent) attribute *)
+Fixpoint has_cross_dup (l : list dw) : bool :=
+  match l with
+  | [] => false
+  | d :: r =>
+      existsb (fun o => list_eqb generic_eqb (dw_generics d) (dw_generics o)
+                        && existsb (fun t => existsb (derive_trait_eqb t) (dw_traits d)) (dw_traits o)) r
+      || has_cross_dup r
+  end.
+
 Record item_attrs := mkItemAttrs { it_skip_inner : skip; it_incomparable : bool; it_dws : list dw }.
 
 Definition item_attr_from_attrs (c : cfg) (is_enum is_union : bool) (attrs : list item_attr) : res item_attrs :=
@@ -426,6 +436,7 @@ Definition item_attr_from_attrs (c : cfg) (is_enum is_union : bool) (attrs : lis
   | _ =>
       let dws := merge_dws (ia_dws st) in
       if existsb (fun d => has_dup (dw_traits d)) dws then Err ETraitDuplicate
+      else if has_cross_dup dws then Err ETraitDuplicate
       else
         do sk <- foldM (fun s m => skip_add_attribute c dws None m s) (ia_skips st) SkipNone;
         do inc <- foldM (fun i m => incomparable_add dws m i) (ia_incs st) false;
